@@ -863,6 +863,139 @@ def all_texts(max_len):
         yield from level
 
 
+# --------------------------------------------------------------------------- references as arguments
+
+# sheet names Excel accepts (anything but : \\ / ? * [ ], at most 31 characters, no apostrophe at either end)
+REF_SHEETS = ['Data', 'My Sheet', 'Sheet1 (2)', "it's", 'a"b', 'P&L (EU)', 'Costs+1,2', '2024', 'x{y}', 'a%b',
+              'A1', 'say "hi" (1)', 'Σ-total', 'a)b', 'c(d', 'e!f', 'TRUE', 'R1C1']
+GRID_ROWS, GRID_COLS = 4, 3
+
+
+def grid_value(r, c):
+    return 10 * r + c
+
+
+def _a1(r, c):
+    return f'{chr(64 + c)}{r}'
+
+
+def reference_formulas(q):
+    """(shape, formula, expected value): the references are on the sheet whose quoted prefix is ``q`` ('' = the
+    formula's own sheet); expected values come from the grid itself"""
+    g = grid_value
+    cell = lambda r, c: f'{q}{_a1(r, c)}'                                  # noqa: E731
+    rng = lambda r1, c1, r2, c2: f'{q}{_a1(r1, c1)}:{_a1(r2, c2)}'        # noqa: E731
+    total = lambda r1, c1, r2, c2: sum(g(r, c) for r in range(r1, r2 + 1) for c in range(c1, c2 + 1))  # noqa: E731
+    yield 'cell', f'={cell(2, 2)}', g(2, 2)
+    yield 'cell-in-operator', f'=-{cell(1, 3)}+{cell(3, 1)}*2', -g(1, 3) + g(3, 1) * 2
+    yield 'range-in-call', f'=SUM({rng(1, 1, 3, 2)})', total(1, 1, 3, 2)
+    yield 'two-ranges-in-call', f'=SUM({rng(1, 1, 1, 3)},{rng(4, 1, 4, 2)},{cell(2, 2)})', \
+        total(1, 1, 1, 3) + total(4, 1, 4, 2) + g(2, 2)
+    yield 'intersection', f'=SUM({rng(1, 1, 3, 2)} {rng(2, 2, 4, 3)})', total(2, 2, 3, 2)
+    if not q:
+        # (with a sheet on both sides pycel declines: NotImplementedError 'Non-rectangular formulas')
+        yield 'range-operator', f'=SUM({cell(1, 1)}:{cell(2, 2)})', total(1, 1, 2, 2)
+    for r, c in ((1, 0), (0, 2), (2, 1)):
+        yield 'offset-of-cell', f'=OFFSET({cell(1, 1)},{r},{c})', g(1 + r, 1 + c)
+        yield 'offset-of-cell', f'=OFFSET({cell(2, 1)},{r},{c})+1', g(2 + r, 1 + c) + 1
+    yield 'offset-sized', f'=SUM(OFFSET({cell(1, 1)},1,1,2,2))', total(2, 2, 3, 3)
+    yield 'offset-of-range', f'=SUM(OFFSET({rng(1, 1, 2, 2)},2,1))', total(3, 2, 4, 3)
+    yield 'offset-computed-arguments', f'=OFFSET({cell(1, 1)},(1+1),ABS(-1))', g(3, 2)
+    yield 'offset-of-offset', f'=OFFSET(OFFSET({cell(1, 1)},1,1),2,1)', g(4, 3)
+    yield 'row-of-cell', f'=ROW({cell(3, 2)})', 3
+    yield 'column-of-cell', f'=COLUMN({cell(3, 2)})*10', 20
+    yield 'column-of-offset', f'=COLUMN(OFFSET({cell(1, 1)},2,2))', 3
+    yield 'index-of-range', f'=INDEX({rng(1, 1, 4, 3)},3,2)', g(3, 2)
+    yield 'index-column-vector', f'=INDEX({rng(1, 2, 4, 2)},4)', g(4, 2)
+    yield 'count-of-ranges', f'=COUNT({rng(1, 1, 4, 3)},{cell(1, 1)})', GRID_ROWS * GRID_COLS + 1
+    yield 'if-of-references', f'=IF({cell(1, 1)}>{cell(1, 2)},{cell(2, 1)},{cell(2, 2)})', g(2, 2)
+    # a call which returns a reference, as an operand and as an argument
+    off = f'OFFSET({cell(2, 1)},1,1)'
+    yield 'reference-call-as-operand', f'={off}+1', g(3, 2) + 1
+    yield 'reference-call-as-operand', f'=2*{off}', 2 * g(3, 2)
+    yield 'reference-call-as-operand', f'=-{off}', -g(3, 2)
+    yield 'reference-call-as-operand', f'={off}%', g(3, 2) / 100
+    yield 'reference-call-as-operand', f'={off}&"x"', f'{g(3, 2)}x'
+    yield 'reference-call-as-operand', f'={off}^2', g(3, 2) ** 2
+    yield 'reference-call-as-operand', f'={off}>{cell(1, 1)}', True
+    yield 'reference-call-as-operand', f'={off}-OFFSET({cell(1, 1)},0,1)', g(3, 2) - g(1, 2)
+    yield 'reference-call-as-operand', f'={off}=OFFSET({cell(1, 1)},2,1)', True
+    yield 'reference-call-as-operand', f'={off}&OFFSET({cell(1, 1)},0,1)', f'{g(3, 2)}{g(1, 2)}'
+    yield 'reference-call-as-argument', f'=ABS(-{off})', g(3, 2)
+    yield 'reference-call-as-argument', f'=SUM({off},1)', g(3, 2) + 1
+    yield 'reference-call-as-argument', f'=SUM(OFFSET({rng(1, 1, 2, 2)},1,1))', total(2, 2, 3, 3)
+    yield 'reference-call-as-argument', f'=AVERAGE(OFFSET({cell(1, 1)},0,0,2,1))', (g(1, 1) + g(2, 1)) / 2
+    yield 'reference-call-as-argument', f'=MAX(OFFSET({cell(1, 1)},0,0,4,3))', g(4, 3)
+    yield 'reference-call-as-argument', f'=MIN(OFFSET({cell(1, 1)},1,0,3,3),99)', g(2, 1)
+    yield 'reference-call-as-argument', f'=COUNT(OFFSET({cell(1, 1)},0,0,3,3))', 9
+    yield 'reference-call-as-argument', f'=IF(AND({off}>0,TRUE),{off},0)', g(3, 2)
+    yield 'reference-call-as-argument', f'=IFERROR({off}+1,0)', g(3, 2) + 1
+    yield 'reference-call-as-argument', f'=SUMPRODUCT(OFFSET({cell(1, 1)},0,0,2,1),OFFSET({cell(1, 2)},0,0,2,1))', \
+        g(1, 1) * g(1, 2) + g(2, 1) * g(2, 2)
+    text = f'{q}{_a1(3, 3)}'.replace('"', '""')
+    yield 'indirect-of-text', f'=INDIRECT("{text}")', g(3, 3)
+    yield 'reference-call-as-operand', f'=INDIRECT("{text}")+1', g(3, 3) + 1
+    rtext = f'{q}{_a1(2, 1)}:{_a1(3, 2)}'.replace('"', '""')
+    yield 'reference-call-as-argument', f'=SUM(INDIRECT("{rtext}"))', total(2, 1, 3, 2)
+
+
+def spaced(formula):
+    """the same formula with a blank after every argument separator outside quotes"""
+    out, quote = [], None
+    for ch in formula:
+        if quote:
+            if ch == quote:
+                quote = None
+        elif ch in '"\'':
+            quote = ch
+        out.append(ch)
+        if ch == ',' and not quote:
+            out.append(' ')
+    return ''.join(out)
+
+
+def judge_reference_calls(ctx, only=None):
+    """formulas whose arguments are references to (other) sheets with every kind of legal name: the value is read
+    off a grid of distinct numbers, in the workbook route (these need sheets to refer to)"""
+    from vp import wb
+    grid = {_a1(r, c): grid_value(r, c) for r in range(1, GRID_ROWS + 1) for c in range(1, GRID_COLS + 1)}
+    k = 0
+    for name in REF_SHEETS:
+        for own in (False, True):
+            q = '' if own else (name if name == 'Data' else "'" + name.replace("'", "''") + "'") + '!'
+            home = name if own else 'Sheet1'
+            for shape, text, want in reference_formulas(q):
+                for style in ('min', 'spaced'):
+                    k += 1
+                    if only is not None and only != (name, own, shape, text, style):
+                        continue
+                    if only is None and not ctx.mine(k):
+                        continue
+                    f = text if style == 'min' else spaced(text)
+                    sheets = [[home, dict(grid)]] if own else [['Sheet1', {}], [name, dict(grid)]]
+                    sheets[0][1]['Z99'] = f
+                    spec = {'sheets': sheets, 'names': {}, 'arrays': [], 'calc': None}
+                    got = wb.outcome(lambda: wb.compile_mem(spec).evaluate(wb.addr(home, 'Z99')))
+                    ctx.count('reference-call')
+                    ctx.count('reference-call:' + shape)
+                    ctx.count('reference-sheet:' + ('own' if own else 'other') + ':' + sheet_class(name))
+                    ctx.case(None)
+                    if not wb.same_outcome(got, ('v', want)):
+                        ctx.violation(f'reference-call/{shape}/{sheet_class(name)}',
+                                      f'{f!r} on sheet {home!r} -> {got[1]!r}{"" if got[0] == "v" else " (raised)"}; '
+                                      f'the cells it names hold {want!r} (grid value of row r, column c = 10r+c)',
+                                      {'kind': 'reference', 'only': [name, own, shape, text, style]})
+
+
+def sheet_class(name):
+    if all(c.isalnum() or c == '_' for c in name) and not name[0].isdigit() and not name.isupper():
+        return 'plain-name'
+    marks = sorted({c for c in name if not (c.isalnum() or c in ' _')})
+    if marks:
+        return 'name-with-' + ''.join(marks)
+    return 'name-needing-quotes'
+
+
 # --------------------------------------------------------------------------- floors (deterministic parts)
 
 FLOORS = {
@@ -870,10 +1003,12 @@ FLOORS = {
               'function-call': 4100, 'function-as-operand': 1100, 'oracle:determinate': 70000,
               'oracle:error-value': 2800, 'rendering:min': 83000, 'rendering:full': 83000,
               'text-literal': 1300, 'number-literal': 136, 'error-literal': 56, 'route:workbook': 1500,
-              'sampled-trees': 400, 'text-order': 486},
+              'sampled-trees': 400, 'text-order': 486, 'reference-call': 3000,
+              'reference-call:reference-call-as-operand': 700, 'reference-call:reference-call-as-argument': 700},
     'thorough': {'depth2-one-inner': 43000, 'depth2-two-inner': 32000, 'depth3-chain': 560000,
                  'function-call': 4100, 'oracle:determinate': 400000, 'rendering:min': 640000,
-                 'text-literal': 25000, 'route:workbook': 10000, 'sampled-trees': 20000},
+                 'text-literal': 25000, 'route:workbook': 10000, 'sampled-trees': 20000,
+                 'reference-call': 3000},
 }
 
 
@@ -886,6 +1021,7 @@ def run(ctx):
     for i, s in enumerate(DIRECTED_TEXT + list(all_texts(2 if ctx.quick else 3))):
         if ctx.mine(i):
             judge_text_literal(ctx, s)
+    judge_reference_calls(ctx)
     # exhaustive trees
     spaces = [quick_trees()] + ([] if ctx.quick else [chain_trees()])
     i = 0
@@ -930,6 +1066,9 @@ def replay(ctx, case):
         judge_text_literal(ctx, case['text'])
     elif k == 'number':
         judge_scalar_literals(ctx)
+    elif k == 'reference':
+        o = case['only']
+        judge_reference_calls(ctx, only=(o[0], o[1], o[2], o[3], o[4]))
     else:
         got = ctx_route().run(case['formula'], {})
         ctx.case(None)
